@@ -206,7 +206,10 @@ fn write_evidence(a: &CheckArgs, p: &PropSpec, st: &Stats, wall: f64, replay: Op
 
 fn find_vio(rec: &RunRecord, prop: &str, clause: &str) -> Option<crate::oracle::Violation> {
     let d = Digest::new(rec);
-    crate::oracle::check_all(&d).into_iter().find(|v| v.prop == prop && v.clause == clause)
+    let hunt = std::env::var("VERIF_HUNT").ok();
+    crate::oracle::check_all(&d)
+        .into_iter()
+        .find(|v| v.prop == prop && v.clause == clause && hunt.as_deref().map(|h| v.known == Some(h)).unwrap_or(true))
 }
 
 fn try_prog(prog: &Program, base_seed: u64, prop: &str, clause: &str, tries: u64) -> Option<(u64, RunRecord)> {
@@ -340,6 +343,7 @@ pub fn minimise_and_persist(prop_checked: &str, v: &VioRec) -> String {
     let excerpt: Vec<String> = rec.ev.iter().map(|e| format!("t{} {:?}", e.tid, e.k)).collect();
     let file = serde_json::json!({
         "property": prop_checked,
+        "finding": v.known,
         "oracle_property": prop,
         "clause": clause,
         "detail": vio.map(|x| x.detail).unwrap_or_default(),
@@ -356,7 +360,13 @@ pub fn minimise_and_persist(prop_checked: &str, v: &VioRec) -> String {
         "history": excerpt,
     });
     let _ = std::fs::create_dir_all("/verif/replays");
-    let path = format!("/verif/replays/{}-{}.json", prop_checked, v.seed);
+    let path = match std::env::var("VERIF_HUNT") {
+        Ok(h) => {
+            let _ = std::fs::create_dir_all("/verif/findings");
+            format!("/verif/findings/{}-{}.json", h, prop_checked)
+        }
+        Err(_) => format!("/verif/replays/{}-{}.json", prop_checked, v.seed),
+    };
     std::fs::write(&path, serde_json::to_string_pretty(&file).unwrap()).expect("write replay");
     path
 }
